@@ -242,6 +242,203 @@ func (*BestChecksums).Checksums
     invariant forall i int :: 0 <= i && i <= rangeindex ==> res[i] == b.ChecksumsSha512[i].FileHash
     decreases len(b.ChecksumsSha512) - rangeindex
 
+
+// ---------- C20: uploads are delivered control file last, confined to the two directories ----------
+
+// the same prefix in front of two different names gives two different paths
+lemma cat_cancel(p string, a string, b string)
+  requires p ++ a == p ++ b
+  ensures a == b
+  { assert len(a) == len(b); assert forall k int :: 0 <= k && k < len(a) ==> a[k] == (p ++ a)[len(p) + k] && b[k] == (p ++ b)[len(p) + k] }
+
+func (*DSC).Copy
+  requires d != nil
+  // the handle follows the control file; on failure it is untouched
+  ensures result == nil ==> d.Filename == dest ++ "/" ++ baseOf(old(d.Filename))
+  ensures result != nil ==> d.Filename == old(d.Filename)
+  // every referenced file was delivered during this call, before the control file, from the control file's own directory
+  ensures result == nil ==> (forall i int :: 0 <= i && i < len(d.Files) ==> plainName(d.Files[i].FileHash.Filename) && fsAt[dest ++ "/" ++ d.Files[i].FileHash.Filename] > old(fsClock))
+  ensures result == nil ==> (forall i int :: 0 <= i && i < len(d.Files) ==> fsAt[dest ++ "/" ++ d.Files[i].FileHash.Filename] < fsAt[d.Filename])
+    by { forall i int { cat_cancel(dest ++ "/", d.Files[i].FileHash.Filename, baseOf(old(d.Filename))) } }
+  ensures result == nil ==> (forall i int :: 0 <= i && i < len(d.Files) ==> fsFrom[dest ++ "/" ++ d.Files[i].FileHash.Filename] == pathJoin(dirOf(old(d.Filename)), d.Files[i].FileHash.Filename))
+    by { forall i int { cat_cancel(dest ++ "/", d.Files[i].FileHash.Filename, baseOf(old(d.Filename))) } }
+  ensures result == nil ==> fsAt[d.Filename] == fsClock && fsClock > old(fsClock) && fsFrom[d.Filename] == old(d.Filename)
+  // failure: the control file has not appeared in the destination
+  ensures result != nil ==> fsAt[dest ++ "/" ++ baseOf(d.Filename)] == old(fsAt[dest ++ "/" ++ baseOf(d.Filename)])
+  // confinement: whatever was delivered is dest/<plain listed name> or dest/<control file>; a name that is not plain
+  // stops everything before the first effect
+  ensures forall p string :: fsAt[p] != old(fsAt[p]) ==> p == dest ++ "/" ++ baseOf(old(d.Filename)) || (exists i int :: 0 <= i && i < len(d.Files) && plainName(d.Files[i].FileHash.Filename) && p == dest ++ "/" ++ d.Files[i].FileHash.Filename)
+  ensures (exists i int :: 0 <= i && i < len(d.Files) && !plainName(d.Files[i].FileHash.Filename)) ==> result != nil && fsClock == old(fsClock)
+  modifies d.Filename, fsClock, mapof(fsAt), mapof(fsFrom)
+  loop 1:
+    invariant -1 <= rangeindex && rangeindex < len(d.Files) && ranged() == d.Files
+    invariant forall i int :: 0 <= i && i <= rangeindex ==> plainName(d.Files[i].FileHash.Filename) && d.Files[i].FileHash.Filename != baseOf(d.Filename)
+    decreases len(d.Files) - rangeindex
+  loop 2:
+    invariant -1 <= rangeindex#2 && rangeindex#2 < len(ranged()) && len(ranged()) == len(d.Files) && d.Filename == old(d.Filename) && fsClock >= old(fsClock)
+    invariant forall i int :: 0 <= i && i < len(d.Files) ==> plainName(d.Files[i].FileHash.Filename) && d.Files[i].FileHash.Filename != baseOf(d.Filename) && ranged()[i].FileHash.Filename == pathJoin(dirOf(d.Filename), d.Files[i].FileHash.Filename)
+    invariant forall i int :: 0 <= i && i <= rangeindex#2 ==> fsAt[dest ++ "/" ++ d.Files[i].FileHash.Filename] > old(fsClock) && fsAt[dest ++ "/" ++ d.Files[i].FileHash.Filename] <= fsClock
+    invariant forall i int :: 0 <= i && i <= rangeindex#2 ==> fsFrom[dest ++ "/" ++ d.Files[i].FileHash.Filename] == pathJoin(dirOf(d.Filename), d.Files[i].FileHash.Filename)
+      by { forall i int { cat_cancel(dest ++ "/", d.Files[i].FileHash.Filename, d.Files[rangeindex#2].FileHash.Filename) } }
+    invariant fsAt[dest ++ "/" ++ baseOf(d.Filename)] == old(fsAt[dest ++ "/" ++ baseOf(d.Filename)])
+      by { forall i int { cat_cancel(dest ++ "/", d.Files[i].FileHash.Filename, baseOf(d.Filename)) } }
+    invariant forall p string :: fsAt[p] != old(fsAt[p]) ==> (exists i int :: 0 <= i && i <= rangeindex#2 && p == dest ++ "/" ++ d.Files[i].FileHash.Filename)
+    decreases len(ranged()) - rangeindex#2
+
+func (*DSC).Move
+  requires d != nil
+  // the handle follows the control file; on failure it is untouched
+  ensures result == nil ==> d.Filename == dest ++ "/" ++ baseOf(old(d.Filename))
+  ensures result != nil ==> d.Filename == old(d.Filename)
+  // every referenced file was delivered during this call, before the control file, from the control file's own directory
+  ensures result == nil ==> (forall i int :: 0 <= i && i < len(d.Files) ==> plainName(d.Files[i].FileHash.Filename) && fsAt[dest ++ "/" ++ d.Files[i].FileHash.Filename] > old(fsClock))
+  ensures result == nil ==> (forall i int :: 0 <= i && i < len(d.Files) ==> fsAt[dest ++ "/" ++ d.Files[i].FileHash.Filename] < fsAt[d.Filename])
+    by { forall i int { cat_cancel(dest ++ "/", d.Files[i].FileHash.Filename, baseOf(old(d.Filename))) } }
+  ensures result == nil ==> (forall i int :: 0 <= i && i < len(d.Files) ==> fsFrom[dest ++ "/" ++ d.Files[i].FileHash.Filename] == pathJoin(dirOf(old(d.Filename)), d.Files[i].FileHash.Filename))
+    by { forall i int { cat_cancel(dest ++ "/", d.Files[i].FileHash.Filename, baseOf(old(d.Filename))) } }
+  ensures result == nil ==> fsAt[d.Filename] == fsClock && fsClock > old(fsClock) && fsFrom[d.Filename] == old(d.Filename)
+  // failure: the control file has not appeared in the destination
+  ensures result != nil ==> fsAt[dest ++ "/" ++ baseOf(d.Filename)] == old(fsAt[dest ++ "/" ++ baseOf(d.Filename)])
+  // confinement: whatever was delivered is dest/<plain listed name> or dest/<control file>; a name that is not plain
+  // stops everything before the first effect
+  ensures forall p string :: fsAt[p] != old(fsAt[p]) ==> p == dest ++ "/" ++ baseOf(old(d.Filename)) || (exists i int :: 0 <= i && i < len(d.Files) && plainName(d.Files[i].FileHash.Filename) && p == dest ++ "/" ++ d.Files[i].FileHash.Filename)
+  ensures (exists i int :: 0 <= i && i < len(d.Files) && !plainName(d.Files[i].FileHash.Filename)) ==> result != nil && fsClock == old(fsClock)
+  // a failed move leaves the control file at its source; only the control file and plain listed names next to it are moved away
+  ensures result != nil ==> fsGone[d.Filename] == old(fsGone[d.Filename])
+  ensures forall p string :: fsGone[p] != old(fsGone[p]) ==> p == old(d.Filename) || (exists i int :: 0 <= i && i < len(d.Files) && plainName(d.Files[i].FileHash.Filename) && p == pathJoin(dirOf(old(d.Filename)), d.Files[i].FileHash.Filename))
+  modifies d.Filename, fsClock, mapof(fsAt), mapof(fsFrom), mapof(fsGone)
+  loop 1:
+    invariant -1 <= rangeindex && rangeindex < len(d.Files) && ranged() == d.Files
+    invariant forall i int :: 0 <= i && i <= rangeindex ==> plainName(d.Files[i].FileHash.Filename) && d.Files[i].FileHash.Filename != baseOf(d.Filename)
+    decreases len(d.Files) - rangeindex
+  loop 2:
+    invariant -1 <= rangeindex#2 && rangeindex#2 < len(ranged()) && len(ranged()) == len(d.Files) && d.Filename == old(d.Filename) && fsClock >= old(fsClock)
+    invariant forall i int :: 0 <= i && i < len(d.Files) ==> plainName(d.Files[i].FileHash.Filename) && d.Files[i].FileHash.Filename != baseOf(d.Filename) && ranged()[i].FileHash.Filename == pathJoin(dirOf(d.Filename), d.Files[i].FileHash.Filename)
+    invariant forall i int :: 0 <= i && i <= rangeindex#2 ==> fsAt[dest ++ "/" ++ d.Files[i].FileHash.Filename] > old(fsClock) && fsAt[dest ++ "/" ++ d.Files[i].FileHash.Filename] <= fsClock
+    invariant forall i int :: 0 <= i && i <= rangeindex#2 ==> fsFrom[dest ++ "/" ++ d.Files[i].FileHash.Filename] == pathJoin(dirOf(d.Filename), d.Files[i].FileHash.Filename)
+      by { forall i int { cat_cancel(dest ++ "/", d.Files[i].FileHash.Filename, d.Files[rangeindex#2].FileHash.Filename) } }
+    invariant fsAt[dest ++ "/" ++ baseOf(d.Filename)] == old(fsAt[dest ++ "/" ++ baseOf(d.Filename)])
+      by { forall i int { cat_cancel(dest ++ "/", d.Files[i].FileHash.Filename, baseOf(d.Filename)) } }
+    invariant forall p string :: fsAt[p] != old(fsAt[p]) ==> (exists i int :: 0 <= i && i <= rangeindex#2 && p == dest ++ "/" ++ d.Files[i].FileHash.Filename)
+    invariant fsGone[d.Filename] == old(fsGone[d.Filename])
+    invariant forall p string :: fsGone[p] != old(fsGone[p]) ==> (exists i int :: 0 <= i && i <= rangeindex#2 && p == pathJoin(dirOf(d.Filename), d.Files[i].FileHash.Filename))
+    decreases len(ranged()) - rangeindex#2
+
+// removal: referenced files first, the control file last and only if all of them are gone; nothing else is touched
+func (*DSC).Remove
+  requires d != nil
+  ensures d.Filename == old(d.Filename)
+  ensures result == nil ==> (forall i int :: 0 <= i && i < len(d.Files) ==> plainName(d.Files[i].FileHash.Filename) && fsGone[pathJoin(dirOf(d.Filename), d.Files[i].FileHash.Filename)] > old(fsClock) && fsGone[pathJoin(dirOf(d.Filename), d.Files[i].FileHash.Filename)] < fsGone[d.Filename])
+  ensures result == nil ==> fsGone[d.Filename] == fsClock && fsClock > old(fsClock)
+  ensures forall p string :: fsGone[p] != old(fsGone[p]) ==> p == d.Filename || (exists i int :: 0 <= i && i < len(d.Files) && plainName(d.Files[i].FileHash.Filename) && p == pathJoin(dirOf(d.Filename), d.Files[i].FileHash.Filename))
+  ensures (exists i int :: 0 <= i && i < len(d.Files) && !plainName(d.Files[i].FileHash.Filename)) ==> result != nil && fsClock == old(fsClock)
+  modifies fsClock, mapof(fsGone)
+  loop 1:
+    invariant -1 <= rangeindex && rangeindex < len(d.Files) && ranged() == d.Files
+    invariant forall i int :: 0 <= i && i <= rangeindex ==> plainName(d.Files[i].FileHash.Filename) && d.Files[i].FileHash.Filename != baseOf(d.Filename)
+    decreases len(d.Files) - rangeindex
+  loop 2:
+    invariant -1 <= rangeindex#2 && rangeindex#2 < len(ranged()) && len(ranged()) == len(d.Files) && d.Filename == old(d.Filename) && fsClock >= old(fsClock)
+    invariant forall i int :: 0 <= i && i < len(d.Files) ==> plainName(d.Files[i].FileHash.Filename) && d.Files[i].FileHash.Filename != baseOf(d.Filename) && ranged()[i].FileHash.Filename == pathJoin(dirOf(d.Filename), d.Files[i].FileHash.Filename)
+    invariant forall i int :: 0 <= i && i <= rangeindex#2 ==> fsGone[pathJoin(dirOf(d.Filename), d.Files[i].FileHash.Filename)] > old(fsClock) && fsGone[pathJoin(dirOf(d.Filename), d.Files[i].FileHash.Filename)] <= fsClock
+    invariant fsGone[d.Filename] == old(fsGone[d.Filename])
+    invariant forall p string :: fsGone[p] != old(fsGone[p]) ==> (exists i int :: 0 <= i && i <= rangeindex#2 && p == pathJoin(dirOf(d.Filename), d.Files[i].FileHash.Filename))
+    decreases len(ranged()) - rangeindex#2
+
+func (*Changes).Copy
+  requires changes != nil
+  // the handle follows the control file; on failure it is untouched
+  ensures result == nil ==> changes.Filename == dest ++ "/" ++ baseOf(old(changes.Filename))
+  ensures result != nil ==> changes.Filename == old(changes.Filename)
+  // every referenced file was delivered during this call, before the control file, from the control file's own directory
+  ensures result == nil ==> (forall i int :: 0 <= i && i < len(changes.Files) ==> plainName(changes.Files[i].FileHash.Filename) && fsAt[dest ++ "/" ++ changes.Files[i].FileHash.Filename] > old(fsClock))
+  ensures result == nil ==> (forall i int :: 0 <= i && i < len(changes.Files) ==> fsAt[dest ++ "/" ++ changes.Files[i].FileHash.Filename] < fsAt[changes.Filename])
+    by { forall i int { cat_cancel(dest ++ "/", changes.Files[i].FileHash.Filename, baseOf(old(changes.Filename))) } }
+  ensures result == nil ==> (forall i int :: 0 <= i && i < len(changes.Files) ==> fsFrom[dest ++ "/" ++ changes.Files[i].FileHash.Filename] == pathJoin(dirOf(old(changes.Filename)), changes.Files[i].FileHash.Filename))
+    by { forall i int { cat_cancel(dest ++ "/", changes.Files[i].FileHash.Filename, baseOf(old(changes.Filename))) } }
+  ensures result == nil ==> fsAt[changes.Filename] == fsClock && fsClock > old(fsClock) && fsFrom[changes.Filename] == old(changes.Filename)
+  // failure: the control file has not appeared in the destination
+  ensures result != nil ==> fsAt[dest ++ "/" ++ baseOf(changes.Filename)] == old(fsAt[dest ++ "/" ++ baseOf(changes.Filename)])
+  // confinement: whatever was delivered is dest/<plain listed name> or dest/<control file>; a name that is not plain
+  // stops everything before the first effect
+  ensures forall p string :: fsAt[p] != old(fsAt[p]) ==> p == dest ++ "/" ++ baseOf(old(changes.Filename)) || (exists i int :: 0 <= i && i < len(changes.Files) && plainName(changes.Files[i].FileHash.Filename) && p == dest ++ "/" ++ changes.Files[i].FileHash.Filename)
+  ensures (exists i int :: 0 <= i && i < len(changes.Files) && !plainName(changes.Files[i].FileHash.Filename)) ==> result != nil && fsClock == old(fsClock)
+  modifies changes.Filename, fsClock, mapof(fsAt), mapof(fsFrom)
+  loop 1:
+    invariant -1 <= rangeindex && rangeindex < len(changes.Files) && ranged() == changes.Files
+    invariant forall i int :: 0 <= i && i <= rangeindex ==> plainName(changes.Files[i].FileHash.Filename) && changes.Files[i].FileHash.Filename != baseOf(changes.Filename)
+    decreases len(changes.Files) - rangeindex
+  loop 2:
+    invariant -1 <= rangeindex#2 && rangeindex#2 < len(ranged()) && len(ranged()) == len(changes.Files) && changes.Filename == old(changes.Filename) && fsClock >= old(fsClock)
+    invariant forall i int :: 0 <= i && i < len(changes.Files) ==> plainName(changes.Files[i].FileHash.Filename) && changes.Files[i].FileHash.Filename != baseOf(changes.Filename) && ranged()[i].FileHash.Filename == pathJoin(dirOf(changes.Filename), changes.Files[i].FileHash.Filename)
+    invariant forall i int :: 0 <= i && i <= rangeindex#2 ==> fsAt[dest ++ "/" ++ changes.Files[i].FileHash.Filename] > old(fsClock) && fsAt[dest ++ "/" ++ changes.Files[i].FileHash.Filename] <= fsClock
+    invariant forall i int :: 0 <= i && i <= rangeindex#2 ==> fsFrom[dest ++ "/" ++ changes.Files[i].FileHash.Filename] == pathJoin(dirOf(changes.Filename), changes.Files[i].FileHash.Filename)
+      by { forall i int { cat_cancel(dest ++ "/", changes.Files[i].FileHash.Filename, changes.Files[rangeindex#2].FileHash.Filename) } }
+    invariant fsAt[dest ++ "/" ++ baseOf(changes.Filename)] == old(fsAt[dest ++ "/" ++ baseOf(changes.Filename)])
+      by { forall i int { cat_cancel(dest ++ "/", changes.Files[i].FileHash.Filename, baseOf(changes.Filename)) } }
+    invariant forall p string :: fsAt[p] != old(fsAt[p]) ==> (exists i int :: 0 <= i && i <= rangeindex#2 && p == dest ++ "/" ++ changes.Files[i].FileHash.Filename)
+    decreases len(ranged()) - rangeindex#2
+
+func (*Changes).Move
+  requires changes != nil
+  // the handle follows the control file; on failure it is untouched
+  ensures result == nil ==> changes.Filename == dest ++ "/" ++ baseOf(old(changes.Filename))
+  ensures result != nil ==> changes.Filename == old(changes.Filename)
+  // every referenced file was delivered during this call, before the control file, from the control file's own directory
+  ensures result == nil ==> (forall i int :: 0 <= i && i < len(changes.Files) ==> plainName(changes.Files[i].FileHash.Filename) && fsAt[dest ++ "/" ++ changes.Files[i].FileHash.Filename] > old(fsClock))
+  ensures result == nil ==> (forall i int :: 0 <= i && i < len(changes.Files) ==> fsAt[dest ++ "/" ++ changes.Files[i].FileHash.Filename] < fsAt[changes.Filename])
+    by { forall i int { cat_cancel(dest ++ "/", changes.Files[i].FileHash.Filename, baseOf(old(changes.Filename))) } }
+  ensures result == nil ==> (forall i int :: 0 <= i && i < len(changes.Files) ==> fsFrom[dest ++ "/" ++ changes.Files[i].FileHash.Filename] == pathJoin(dirOf(old(changes.Filename)), changes.Files[i].FileHash.Filename))
+    by { forall i int { cat_cancel(dest ++ "/", changes.Files[i].FileHash.Filename, baseOf(old(changes.Filename))) } }
+  ensures result == nil ==> fsAt[changes.Filename] == fsClock && fsClock > old(fsClock) && fsFrom[changes.Filename] == old(changes.Filename)
+  // failure: the control file has not appeared in the destination
+  ensures result != nil ==> fsAt[dest ++ "/" ++ baseOf(changes.Filename)] == old(fsAt[dest ++ "/" ++ baseOf(changes.Filename)])
+  // confinement: whatever was delivered is dest/<plain listed name> or dest/<control file>; a name that is not plain
+  // stops everything before the first effect
+  ensures forall p string :: fsAt[p] != old(fsAt[p]) ==> p == dest ++ "/" ++ baseOf(old(changes.Filename)) || (exists i int :: 0 <= i && i < len(changes.Files) && plainName(changes.Files[i].FileHash.Filename) && p == dest ++ "/" ++ changes.Files[i].FileHash.Filename)
+  ensures (exists i int :: 0 <= i && i < len(changes.Files) && !plainName(changes.Files[i].FileHash.Filename)) ==> result != nil && fsClock == old(fsClock)
+  // a failed move leaves the control file at its source; only the control file and plain listed names next to it are moved away
+  ensures result != nil ==> fsGone[changes.Filename] == old(fsGone[changes.Filename])
+  ensures forall p string :: fsGone[p] != old(fsGone[p]) ==> p == old(changes.Filename) || (exists i int :: 0 <= i && i < len(changes.Files) && plainName(changes.Files[i].FileHash.Filename) && p == pathJoin(dirOf(old(changes.Filename)), changes.Files[i].FileHash.Filename))
+  modifies changes.Filename, fsClock, mapof(fsAt), mapof(fsFrom), mapof(fsGone)
+  loop 1:
+    invariant -1 <= rangeindex && rangeindex < len(changes.Files) && ranged() == changes.Files
+    invariant forall i int :: 0 <= i && i <= rangeindex ==> plainName(changes.Files[i].FileHash.Filename) && changes.Files[i].FileHash.Filename != baseOf(changes.Filename)
+    decreases len(changes.Files) - rangeindex
+  loop 2:
+    invariant -1 <= rangeindex#2 && rangeindex#2 < len(ranged()) && len(ranged()) == len(changes.Files) && changes.Filename == old(changes.Filename) && fsClock >= old(fsClock)
+    invariant forall i int :: 0 <= i && i < len(changes.Files) ==> plainName(changes.Files[i].FileHash.Filename) && changes.Files[i].FileHash.Filename != baseOf(changes.Filename) && ranged()[i].FileHash.Filename == pathJoin(dirOf(changes.Filename), changes.Files[i].FileHash.Filename)
+    invariant forall i int :: 0 <= i && i <= rangeindex#2 ==> fsAt[dest ++ "/" ++ changes.Files[i].FileHash.Filename] > old(fsClock) && fsAt[dest ++ "/" ++ changes.Files[i].FileHash.Filename] <= fsClock
+    invariant forall i int :: 0 <= i && i <= rangeindex#2 ==> fsFrom[dest ++ "/" ++ changes.Files[i].FileHash.Filename] == pathJoin(dirOf(changes.Filename), changes.Files[i].FileHash.Filename)
+      by { forall i int { cat_cancel(dest ++ "/", changes.Files[i].FileHash.Filename, changes.Files[rangeindex#2].FileHash.Filename) } }
+    invariant fsAt[dest ++ "/" ++ baseOf(changes.Filename)] == old(fsAt[dest ++ "/" ++ baseOf(changes.Filename)])
+      by { forall i int { cat_cancel(dest ++ "/", changes.Files[i].FileHash.Filename, baseOf(changes.Filename)) } }
+    invariant forall p string :: fsAt[p] != old(fsAt[p]) ==> (exists i int :: 0 <= i && i <= rangeindex#2 && p == dest ++ "/" ++ changes.Files[i].FileHash.Filename)
+    invariant fsGone[changes.Filename] == old(fsGone[changes.Filename])
+    invariant forall p string :: fsGone[p] != old(fsGone[p]) ==> (exists i int :: 0 <= i && i <= rangeindex#2 && p == pathJoin(dirOf(changes.Filename), changes.Files[i].FileHash.Filename))
+    decreases len(ranged()) - rangeindex#2
+
+// removal: referenced files first, the control file last and only if all of them are gone; nothing else is touched
+func (*Changes).Remove
+  requires changes != nil
+  ensures changes.Filename == old(changes.Filename)
+  ensures result == nil ==> (forall i int :: 0 <= i && i < len(changes.Files) ==> plainName(changes.Files[i].FileHash.Filename) && fsGone[pathJoin(dirOf(changes.Filename), changes.Files[i].FileHash.Filename)] > old(fsClock) && fsGone[pathJoin(dirOf(changes.Filename), changes.Files[i].FileHash.Filename)] < fsGone[changes.Filename])
+  ensures result == nil ==> fsGone[changes.Filename] == fsClock && fsClock > old(fsClock)
+  ensures forall p string :: fsGone[p] != old(fsGone[p]) ==> p == changes.Filename || (exists i int :: 0 <= i && i < len(changes.Files) && plainName(changes.Files[i].FileHash.Filename) && p == pathJoin(dirOf(changes.Filename), changes.Files[i].FileHash.Filename))
+  ensures (exists i int :: 0 <= i && i < len(changes.Files) && !plainName(changes.Files[i].FileHash.Filename)) ==> result != nil && fsClock == old(fsClock)
+  modifies fsClock, mapof(fsGone)
+  loop 1:
+    invariant -1 <= rangeindex && rangeindex < len(changes.Files) && ranged() == changes.Files
+    invariant forall i int :: 0 <= i && i <= rangeindex ==> plainName(changes.Files[i].FileHash.Filename) && changes.Files[i].FileHash.Filename != baseOf(changes.Filename)
+    decreases len(changes.Files) - rangeindex
+  loop 2:
+    invariant -1 <= rangeindex#2 && rangeindex#2 < len(ranged()) && len(ranged()) == len(changes.Files) && changes.Filename == old(changes.Filename) && fsClock >= old(fsClock)
+    invariant forall i int :: 0 <= i && i < len(changes.Files) ==> plainName(changes.Files[i].FileHash.Filename) && changes.Files[i].FileHash.Filename != baseOf(changes.Filename) && ranged()[i].FileHash.Filename == pathJoin(dirOf(changes.Filename), changes.Files[i].FileHash.Filename)
+    invariant forall i int :: 0 <= i && i <= rangeindex#2 ==> fsGone[pathJoin(dirOf(changes.Filename), changes.Files[i].FileHash.Filename)] > old(fsClock) && fsGone[pathJoin(dirOf(changes.Filename), changes.Files[i].FileHash.Filename)] <= fsClock
+    invariant fsGone[changes.Filename] == old(fsGone[changes.Filename])
+    invariant forall p string :: fsGone[p] != old(fsGone[p]) ==> (exists i int :: 0 <= i && i <= rangeindex#2 && p == pathJoin(dirOf(changes.Filename), changes.Files[i].FileHash.Filename))
+    decreases len(ranged()) - rangeindex#2
+
 layout DSC
   field "Format" scalar
   field "Source" scalar
@@ -356,5 +553,7 @@ property C07: lemma idxOf_prefix, (*ParagraphReader).Next, (*ParagraphReader).Al
 property C09: lemma idxOf_prefix, lemma idxOf_found, (*Paragraph).Set, (*Paragraph).Update
 
 property C10: (*DSC).HasArchAll, (*DSC).Maintainers, (*SourceParagraph).Maintainers, (*DSC).AbsFiles, (*Changes).AbsFiles, (*DSC).DebianSource, (*BinaryIndex).SourcePackage, (*BestChecksums).Checksums, (*FileHash).unmarshalControl, (*MD5FileHash).UnmarshalControl, (*SHA1FileHash).UnmarshalControl, (*SHA256FileHash).UnmarshalControl, (*SHA512FileHash).UnmarshalControl, (*FileListChangesFileHash).UnmarshalControl, layout DSC, layout Changes, layout SourceParagraph, layout BinaryParagraph, layout BinaryIndex, layout SourceIndex, layout BestChecksums
+
+property C20: lemma cat_cancel, (*DSC).Copy, (*DSC).Move, (*DSC).Remove, (*Changes).Copy, (*Changes).Move, (*Changes).Remove
 
 @*/
